@@ -115,27 +115,32 @@ def finishM (p : Proto) (steps : List String) (r : Option Pdu) : String :=
 
 def lastNum (os : List (Nat × Bytes)) : Nat := (os.getLast?.map (·.1)).getD 0
 
-/-- abstract effect of an accepted call (D13: the implicit Hop-Limit accompanies a Proxy-Uri / Proxy-Scheme
-that is added through coap_add_option, or appended behind the highest number) -/
-def absCall (m : Msg) : Call → Msg
+/-- abstract effect of an accepted call.  D13: Hop-Limit MAY accompany a Proxy-Uri / Proxy-Scheme added to a
+request that has none; `hop` selects the alternative, so the abstract side yields both admissible results. -/
+def absCall (hop : Bool) (m : Msg) : Call → Msg
   | .addToken t => { m with token := t }
   | .updateToken t => { m with token := t }
   | .addData d => if d = [] then m else { m with payload := d }
-  | .addOption n v => { m with opts := Spec.addSem (Spec.hopApplies m.code n m.opts) n v m.opts }
-  | .insertOption n v => Spec.applyEdit (Spec.hopApplies m.code n m.opts && decide (n ≥ lastNum m.opts)) m (.insert n v)
-  | .updateOption n v => Spec.applyEdit (Spec.hopApplies m.code n m.opts && decide (n ≥ lastNum m.opts)) m (.update n v)
+  | .addOption n v => { m with opts := Spec.addSem (hop && Spec.hopApplies m.code n m.opts) n v m.opts }
+  | .insertOption n v => Spec.applyEdit (hop && Spec.hopApplies m.code n m.opts) m (.insert n v)
+  | .updateOption n v => Spec.applyEdit (hop && Spec.hopApplies m.code n m.opts) m (.update n v)
   | .removeOption n => Spec.applyEdit false m (.remove n)
 
-def absRun : Msg → List Call → List Nat → Msg
-  | m, c :: cs, rc :: rcs => absRun (if rc = 0 then m else absCall m c) cs rcs      -- D14: refused = unchanged
-  | m, _, _ => m
+/-- all abstract results admissible under D13 for the accepted calls (D14: refused = unchanged).
+At most one Proxy option triggers the choice per message (afterwards Hop-Limit is present or the choice was
+"without"), so the alternatives are few; they are deduplicated. -/
+def absRun : List Msg → List Call → List Nat → List Msg
+  | ms, c :: cs, rc :: rcs =>
+    let next := if rc = 0 then ms else (ms.flatMap fun m => [absCall true m c, absCall false m c]).eraseDups
+    absRun next cs rcs
+  | ms, _, _ => ms
 
 def finishS (p : Proto) (m : Msg) (calls : List Call) (rcs : List Nat) : String :=
-  let a := absRun m calls rcs
+  let alts := (absRun [m] calls rcs).filter fun a => decide (Spec.WF p a)
   let pat := String.ofList (rcs.map fun rc => if rc = 0 then '0' else '1')
-  if decide (Spec.WF p a) then
-    "rcs=" ++ (if pat.isEmpty then "-" else pat) ++ " msg=" ++ showMsgD (Spec.onWire p a) ++ " bytes=" ++ dg (Spec.encode p a)
-  else "skip"
+  if alts.isEmpty || alts.length > 8 then "skip" else
+  "rcs=" ++ (if pat.isEmpty then "-" else pat) ++ " " ++
+    String.intercalate " || " (alts.map fun a => "msg=" ++ showMsgD (Spec.onWire p a) ++ " bytes=" ++ dg (Spec.encode p a))
 
 def hdrLen (p : Proto) (wire : Bytes) : Nat :=
   match p, wire with
